@@ -12,6 +12,7 @@ mod float;
 mod lp;
 mod gac;
 mod sudoku;
+mod validate;
 mod out;
 mod rng;
 mod ss;
@@ -52,6 +53,7 @@ fn main() {
         "float" => float::suite(&mut out, seed, count, &args),
         "lower" => lower::suite(&mut out, seed, count, &args),
         "determ" => determ::suite(&mut out, seed, count, &args),
+        "validate" => validate::suite(&mut out, seed, count, &args),
         "malformed" => malformed::suite(&mut out, seed, count, &args),
         "replay" => {
             // re-run the ops of a file verbatim (used by --replay)
@@ -105,6 +107,8 @@ fn replay(out: &mut Out, path: &str) {
             lp::replay_line(out, line);
         } else if w.starts_with("fl.") || w == "#flapi" {
             float::replay_line(out, line);
+        } else if w.starts_with("vd.") {
+            validate::replay_line(out, line);
         } else if w.starts_with("mal.") {
             malformed::replay_line(out, line);
         } else if w == "#det" {
